@@ -43,6 +43,9 @@ func init() {
 		RT + ".SetNow":   extSetNow,
 		RT + ".Concrete": func(fr *frame, a []value) value { return fr.i.concretize(a[0], "rt.Concrete") },
 		RT + ".Fresh":    extFresh,
+		RT + ".And":      func(fr *frame, a []value) value { return fr.i.boolAnd(a[0], a[1]) },
+		RT + ".Or":       func(fr *frame, a []value) value { return fr.i.boolOr(a[0], a[1]) },
+		RT + ".Implies":  func(fr *frame, a []value) value { return fr.i.boolOr(fr.i.boolNot(a[0]), a[1]) },
 		RT + ".Param": func(fr *frame, a []value) value {
 			if v, ok := fr.i.cfg.Params[strArg(fr, a[0])]; ok {
 				return v
@@ -413,7 +416,7 @@ func (i *interpreter) fmtArg(sb *strings.Builder, verb byte, a value) bool {
 		// error / Stringer
 		if verb == 'v' || verb == 's' {
 			for _, m := range []string{"Error", "String"} {
-				if f := i.prog.LookupMethod(it.t, nil, m); f != nil && f.Signature.Params().Len() == 0 {
+				if f := i.findMethod(it.t, m); f != nil && f.Signature.Params().Len() == 0 {
 					r := call(i, nil, 0, f, []value{it.v})
 					sb.WriteString(i.concStr(r, "fmt"))
 					return true
@@ -596,7 +599,7 @@ func extErrorsIs(fr *frame, args []value) value {
 				return true
 			}
 		}
-		f := i.prog.LookupMethod(e.t, nil, "Unwrap")
+		f := i.findMethod(e.t, "Unwrap")
 		if f == nil {
 			return false
 		}
@@ -610,3 +613,12 @@ func extErrorsIs(fr *frame, args []value) value {
 }
 
 var _ = ssa.NaiveForm
+
+// findMethod returns the exported method name of dynamic type t, or nil.
+func (i *interpreter) findMethod(t types.Type, name string) *ssa.Function {
+	sel := i.prog.MethodSets.MethodSet(t).Lookup(nil, name)
+	if sel == nil {
+		return nil
+	}
+	return i.prog.MethodValue(sel)
+}
